@@ -106,9 +106,9 @@ def c27(ctx):
     for r in allrows:
         c = r["case"]
         ctx.cov["evaluations"] += 1
-        distinct.add((c["depth"], c["plen"], c["pval"], c["canon"], c["rootok"], r["corrupt"]))
+        distinct.add((c["depth"], c["plen"], c["pval"], c["canon"], c["rootok"], r["corrupt"], bool(r.get("tie"))))
         d = (f"depth={c['depth']} positions={c['plen']} position value={c['pval']} non-canonical hash={c['canon']} root matches fold={c['rootok']} "
-             f"single corruption={r['corrupt']}")
+             f"single corruption={r['corrupt']} sibling equal to the running hash={bool(r.get('tie'))}")
         bad = None
         n = r["native"]
         if n.get("panic") or r["build"].get("panic") or (isinstance(r["node"], dict) and r["node"].get("panic")):
@@ -136,7 +136,8 @@ def c27(ctx):
     ctx.cov["distinct_nontrivial"] = len(distinct)
     ctx.cov["rule"] = ("all proof classes of Merkle.tla (depth 0..17, positions shorter/equal/longer, position 4, non-canonical leaf / sibling limb "
                        "p, p+1, 2^64-1, root = fold or one single corruption among root / sibling / in-range position / leaf) realised as real "
-                       "32-byte paths with sorted-rank positions; each on ZkMerkleProof::{verify, verify_with_positions, from_unsorted}, "
+                       "32-byte paths with sorted-rank positions, every third path with one level whose siblings contain the running hash itself (tie: "
+                       "duplicate child); each on ZkMerkleProof::{verify, verify_with_positions, from_unsorted}, "
                        "insert_at_position, hash_node(_presorted) and, for canonical paths, inside a real non-dummy statement on the real leaf "
                        "circuit; thorough repeats with 6 seeds. distinct = (class, corruption kind)")
     for r in allrows[:: max(1, len(allrows) // 3)][:3]:
